@@ -130,6 +130,15 @@ fn canon_node(ast: &Ast, index: AstIndex, o: &CanonOptions, depth: usize, out: &
             return;
         }
     }
+    if o.strip_cosmetic_flags {
+        // a block holding a single expression is the indented spelling of that expression
+        if let koto_parser::Node::Block(expressions) = node {
+            if expressions.len() == 1 {
+                canon_node(ast, expressions[0], o, depth + 1, out);
+                return;
+            }
+        }
+    }
     let mut d = format!("{node:?}");
     d = strip_field(&d, "local_count");
     d = strip_field(&d, "accessed_non_locals");
